@@ -39,7 +39,9 @@ func condMet(sc *Scenario, t *Truth, dep, c string, seq int, depth int, waitStar
 				}
 			case "stop", "stopmany", "start", "restart":
 				if call.Arg == rep || (call.Op == "stopmany" && strings.Contains(call.Desc, rep)) {
-					if call.Op != "start" {
+					if call.Op != "start" && (call.RetSeq < 0 || call.RetSeq >= waitStart) {
+						// (a stop that was over before this dependent began to wait released
+						// nobody: the dependent meets the dependency's next life)
 						everStopped = true
 					}
 					lastOp = call.Op
